@@ -363,14 +363,17 @@ def main(argv):
                 results.append(j.result())
             if kfut:
                 kres = kfut.result()
-        rc = report(prop, tier, seed, cfg, results, kres, known, t0)
+        selftest = []
+        if tier == "thorough" and os.path.realpath(REPO) == "/repo" and not only_unit and not os.environ.get("VERIF_NO_SELFTEST"):
+            selftest = seed_selftest(prop)
+        rc = report(prop, tier, seed, cfg, results, kres, known, t0, selftest)
     finally:
         if not keep:
             shutil.rmtree(workdir, ignore_errors=True)
     return rc
 
 
-def report(prop, tier, seed, cfg, results, kres, known, t0):
+def report(prop, tier, seed, cfg, results, kres, known, t0, selftest=()):
     violations, undecided, known_hits = [], [], []
     obligations = discharged = 0
     per_fn, items, rewrites, trusted, samples, bounded = [], [], [], [], [], []
@@ -468,6 +471,10 @@ def report(prop, tier, seed, cfg, results, kres, known, t0):
                 continue
             path = kanirun.write_replay(VERIF, prop, k)
             violations.append((oid, path, "" if k.get("replayed") else "no-failing-input-found", {"msg": k.get("failed_check", ""), "snippet": k.get("witness", ""), "where": k["harness"]}))
+    # thorough tier: stored breaking changes that the check is recorded to detect must still be detected
+    for st in selftest:
+        if not st["detected"]:
+            undecided.append("self-test: seeded change %s (recorded as DETECTED) is no longer reported: rc=%s" % (st["seed"], st["rc"]))
     # samples
     for r in results:
         if r["variant"] == "main" and r["status"] in ("verified", "proof-failed"):
@@ -499,6 +506,7 @@ def report(prop, tier, seed, cfg, results, kres, known, t0):
             "vacuity_guards": guards,
             "samples": samples or [{"note": "no obligations ran"}],
             "known_findings_reported": [k["_text"] for _, k in known_hits],
+            "seeded_change_selftest": list(selftest),
             "undecided": undecided,
             "explanation": "obligations = Verus verification conditions per function/lemma/spec-termination (one per item reported by Verus) + complete Kani harnesses; bounded Kani stand-ins are listed under `bounded` and never counted.",
         },
@@ -518,6 +526,37 @@ def report(prop, tier, seed, cfg, results, kres, known, t0):
     if undecided or obligations == 0:
         return 2
     return 0
+
+
+def seed_selftest(prop):
+    """thorough tier: re-apply every stored seeded change of this property that is recorded as DETECTED (seeded/<id>/detect.json)
+    to a scratch copy of /repo and run the quick check against it; it must still end in a VIOLATION."""
+    out = []
+    sd = os.path.join(VERIF, "seeded")
+    for name in sorted(os.listdir(sd)):
+        d = os.path.join(sd, name)
+        try:
+            meta = json.load(open(os.path.join(d, "meta.json")))
+            det = json.load(open(os.path.join(d, "detect.json")))
+        except Exception:
+            continue
+        if meta.get("property") != prop or not str(det.get("verdict", "")).startswith("DETECTED"):
+            continue
+        scratch = kanirun.make_scratch(REPO)
+        try:
+            p = subprocess.run(["patch", "-p1", "-s", "-i", os.path.join(d, "patch.diff")], cwd=scratch, capture_output=True, text=True)
+            if p.returncode != 0:
+                out.append({"seed": name, "detected": False, "rc": "patch does not apply"})
+                continue
+            env = dict(os.environ, VERIF_REPO=scratch, VERIF_NO_SELFTEST="1")
+            q = subprocess.run([sys.executable, os.path.abspath(__file__), prop, "--tier", "quick"], capture_output=True, text=True, env=env, timeout=3600)
+            out.append({"seed": name, "detected": q.returncode == 1 and "VIOLATION property=%s" % prop in q.stdout, "rc": q.returncode,
+                        "obligations": re.findall(r"obligation failed: (\S+)", q.stdout)[:4]})
+        except subprocess.TimeoutExpired:
+            out.append({"seed": name, "detected": False, "rc": "timeout"})
+        finally:
+            shutil.rmtree(scratch, ignore_errors=True)
+    return out
 
 
 def replay(path):
